@@ -673,6 +673,22 @@ Proof.
     constructor; [exact Hid | exact Hsq | apply Forall_replace_child; assumption | eapply children_ok_replace; eauto].
 Qed.
 
+Lemma remove_at_removed : forall n segs p p' x,
+  wf n p -> remove_at segs p = Val (p', x) -> In x (nodes p) /\ key_ok (pkey x).
+Proof.
+  intros n segs. induction segs as [|k r IH]; intros p p' x Hwf H; simpl in H; [discriminate|].
+  destruct p as [|h ch]; [discriminate|].
+  destruct (find_child k ch) as [c|] eqn:Ec; [|discriminate].
+  inversion Hwf as [|? ? Hid Hsq Hch Hok]; subst.
+  pose proof (find_child_in _ _ _ Ec) as Hin.
+  destruct r as [|k2 r2].
+  - inversion H; subst. split; [eapply nodes_child; [exact Hin | apply nodes_self]|].
+    destruct Hok as (_ & Hk & _). rewrite <- map_pkey_phdr in Hk. rewrite Forall_forall in Hk. apply Hk, in_map, Hin.
+  - destruct (remove_at (k2 :: r2) c) as [[c' y]|] eqn:Er; [|discriminate]. inversion H; subst.
+    assert (Hc : wf n c) by (rewrite Forall_forall in Hch; auto).
+    destruct (IH _ _ _ Hc Er) as [H1 H2]. split; [eapply nodes_child; eauto | exact H2].
+Qed.
+
 Lemma remove_at_leaves : forall segs p p' x L,
   remove_at segs p = Val (p', x) -> is_leaf L -> In L (nodes p') -> In L (nodes p).
 Proof.
@@ -1613,6 +1629,24 @@ Proof.
       * inversion H0; subst. eapply (set_target_free _ root' free (Some j)); [reflexivity | exact Hk|].
         unfold pkey. rewrite Hh. apply find_free_in in H. rewrite Forall_forall in Hk. apply (Hk _ H).
       * inversion H0; subst. exact Hk.
+  - (* remove: the removed object is retired *)
+    match goal with
+    | Hg : get_target _ _ _ = Some _, Hr : remove_at _ _ = Val _, Hs : set_target _ _ _ _ = _ |- _ =>
+        destruct (set_target_split _ _ _ _ _ _ _ Hg Hs) as (l1 & l2 & E1 & E2);
+        rename Hg into Hget; rename Hr into Hrem; rename Hs into Hset
+    end.
+    rewrite E1 in Hwf. pose proof (Forall_mid_at _ _ _ _ Hwf) as HT.
+    destruct (remove_at_wf n _ _ _ _ HT Hrem) as (HT' & Hh & Hx).
+    destruct (remove_at_removed n _ _ _ _ HT Hrem) as [_ Hkx].
+    split.
+    + change (root' :: free'0 ++ [x]) with ((root' :: free'0) ++ [x]). apply Forall_app. split.
+      * rewrite E2. eapply Forall_mid; [apply Hmono, Hwf|]. eapply wf_mono; [|exact HT']. lia.
+      * constructor; [|constructor]. eapply wf_mono; [|exact Hx]. lia.
+    + apply Forall_app. split; [|constructor; [exact Hkx | constructor]].
+      destruct tg as [j|]; simpl in Hget, Hset.
+      * inversion Hset; subst. eapply (set_target_free _ root' free (Some j)); [reflexivity | exact Hk|].
+        unfold pkey. rewrite Hh. apply find_free_in in Hget. rewrite Forall_forall in Hk. apply (Hk _ Hget).
+      * inversion Hset; subst. exact Hk.
   - (* attach *)
     assert (Hwf0 : Forall (wf n) (root :: remove_free i free)).
     { inversion Hwf; subst. constructor; [assumption | apply Forall_remove_free; assumption]. }
@@ -1768,6 +1802,31 @@ Proof.
     + left. exists h, v'. split; [|split; [apply same_obj_refl | auto]].
       apply in_flat_map. exists t. split; [|exact Hin].
       apply in_app_or in Ht'. apply in_or_app. destruct Ht'; [left | right; right]; assumption.
+  - (* remove: what is left and what was handed back both come from T *)
+    match goal with
+    | Hg : get_target _ _ _ = Some _, Hr : remove_at _ _ = Val _, Hs : set_target _ _ _ _ = _ |- _ =>
+        destruct (set_target_split _ _ _ _ _ _ _ Hg Hs) as (l1 & l2 & E1 & E2); rename Hr into Hrem
+    end.
+    assert (HinT : forall L, In L (nodes T) -> In L (flat_map nodes (root :: free))).
+    { intros L HL. rewrite E1. apply in_flat_map. exists T. split; [apply in_or_app; right; left; reflexivity | exact HL]. }
+    change (root' :: free'0 ++ [x]) with ((root' :: free'0) ++ [x]) in Hin.
+    rewrite flat_map_app in Hin. apply in_app_or in Hin. destruct Hin as [Hin|Hin].
+    + rewrite E2 in Hin. apply in_flat_map in Hin. destruct Hin as (y & Hy & Hin).
+      apply in_mid in Hy. destruct Hy as [->|Hy].
+      * apply Hold, HinT. eapply (remove_at_leaves _ _ _ _ (Leaf h ro c d v')); eauto. exact I.
+      * apply Hold. rewrite E1. apply in_flat_map. exists y. split; [|exact Hin].
+        apply in_app_or in Hy. apply in_or_app. destruct Hy; [left | right; right]; assumption.
+    + simpl in Hin. rewrite app_nil_r in Hin. apply Hold, HinT.
+      assert (Hx : In x (nodes T)).
+      { clear - Hrem. revert T T' x Hrem. generalize (segments path) as segs.
+        induction segs as [|k r IH]; intros T T' x H; simpl in H; [discriminate|].
+        destruct T as [|h0 ch]; [discriminate|].
+        destruct (find_child k ch) as [c0|] eqn:Ec; [|discriminate].
+        destruct r as [|k2 r2].
+        - inversion H; subst. eapply nodes_child; [eapply find_child_in, Ec | apply nodes_self].
+        - destruct (remove_at (k2 :: r2) c0) as [[c' y]|] eqn:Er; [|discriminate]. inversion H; subst.
+          eapply nodes_child; [eapply find_child_in, Ec | eapply IH, Er]. }
+      eapply nodes_trans; eauto.
   - (* attach *)
     match goal with
     | Hf : find_free _ _ = Some _, Hg : get_target _ _ _ = Some _, Hs : set_target _ _ _ _ = _,
@@ -1945,6 +2004,19 @@ Proof.
     end.
     destruct (step_root_ids_perm n T o') as [l Hl]. exists l.
     rewrite E1, E2, !flat_map_mid. apply perm_mid, Hl.
+  - (* remove: the identities of T are those of what is left and of what was handed back *)
+    match goal with
+    | Hg : get_target _ _ _ = Some _, Hr : remove_at _ _ = Val _, Hs : set_target _ _ _ _ = _ |- _ =>
+        destruct (set_target_split _ _ _ _ _ _ _ Hg Hs) as (l1 & l2 & E1 & E2); rename Hr into Hrem
+    end.
+    exists [n]. apply Permutation_app_tail. apply remove_at_ids in Hrem.
+    change (root' :: free'0 ++ [x]) with ((root' :: free'0) ++ [x]).
+    rewrite flat_map_app, E1, E2, !flat_map_mid. simpl. rewrite app_nil_r.
+    (* F l1 ++ ids T ++ F l2  ~  (F l1 ++ ids T' ++ F l2) ++ ids x *)
+    eapply perm_trans; [apply Permutation_app_head, Permutation_app_tail, Hrem|].
+    rewrite <- !app_assoc.
+    apply Permutation_app_head.
+    rewrite (app_assoc (ids T') (flat_map ids l2) (ids x)). apply Permutation_app_comm.
   - match goal with
     | Hf : find_free _ _ = Some _, Hg : get_target _ _ _ = Some _, Hs : set_target _ _ _ _ = _,
       Hm : modify _ _ _ = Val _ |- _ =>
@@ -2050,4 +2122,68 @@ Proof.
   - rewrite node_at_app, Hn'. simpl. rewrite Hfind. reflexivity.
   - intros l y Hin Hne. rewrite node_at_app, Hn'. simpl. rewrite Hfind.
     rewrite node_at_restamp by exact Hne. eapply node_at_paths; eauto.
+Qed.
+
+(* ------------------------------------------------------------------ T13: adding touches nothing else *)
+Lemma find_child_perm : forall k l l', NoDup (map pkey l) -> Permutation l l' -> find_child k l' = find_child k l.
+Proof.
+  intros k l l' Hnd Hp.
+  assert (Hnd' : NoDup (map pkey l')) by (eapply Permutation_NoDup; [apply Permutation_map, Hp | exact Hnd]).
+  destruct (find_child k l) as [c|] eqn:E.
+  - pose proof (find_child_key _ _ _ E) as Hk. pose proof (find_child_in _ _ _ E) as Hin.
+    rewrite <- Hk. apply find_child_nodup; [exact Hnd' | eapply Permutation_in; eauto].
+  - apply find_child_none. apply find_child_none in E. intro H. apply E.
+    eapply Permutation_in; [apply Permutation_sym, Permutation_map, Hp | exact H].
+Qed.
+
+Lemma find_child_snoc_other : forall k p ch, String.eqb k (pkey p) = false -> find_child k (ch ++ [p]) = find_child k ch.
+Proof.
+  induction ch as [|x r IH]; simpl; intros H; [rewrite H; reflexivity|].
+  destruct (String.eqb k (pkey x)); [reflexivity | apply IH, H].
+Qed.
+
+Lemma is_prefix_app_cons : forall a k k' r', is_prefix (a ++ [k]) (k' :: r') = false ->
+  match a with [] => String.eqb k k' = false | x :: a' => String.eqb x k' = false \/ is_prefix (a' ++ [k]) r' = false end.
+Proof.
+  intros [|x a'] k k' r' H; simpl in *.
+  - rewrite andb_true_r in H. exact H.
+  - apply andb_false_iff in H. exact H.
+Qed.
+
+(* An accepted add / attach of p at the path segs changes the map it is added to
+   and nothing else: every path that does not lead through the new child
+   resolves to the same node as before (up to the child lists of maps on the
+   way).  In particular no parameter of another map disappears. *)
+Theorem add_frame : forall n segs p T T',
+  wf n T -> modify segs (map_add p) T = Val T' ->
+  forall l', is_prefix (segs ++ [pkey p]) l' = false ->
+             option_map shallow (node_at T' l') = option_map shallow (node_at T l').
+Proof.
+  intros n segs p. induction segs as [|k r IH]; intros T T' Hwf H l' Hp.
+  - simpl in H. destruct T as [|h ch]; simpl in H; [discriminate|].
+    destruct (has_key (pkey p) ch) eqn:Eh; [discriminate|]. inversion H; subst.
+    destruct l' as [|k' r']; [reflexivity|].
+    apply (is_prefix_app_cons [] (pkey p) k' r') in Hp. simpl.
+    destruct (wf_children_nodup _ _ _ Hwf) as [Hnd _].
+    assert (Hnd' : NoDup (map pkey (ch ++ [p]))).
+    { rewrite map_app. simpl. eapply Permutation_NoDup; [apply Permutation_cons_append|].
+      constructor; [apply has_key_false, Eh | exact Hnd]. }
+    rewrite (find_child_perm k' (ch ++ [p]) (py_sorted (ch ++ [p])) Hnd'
+               (Permutation_sym (proj1 (py_sorted_is_stable_sort _)))).
+    rewrite find_child_snoc_other by (apply eqb_false_sym, Hp). reflexivity.
+  - simpl in H. destruct T as [|h ch]; [discriminate|].
+    destruct (find_child k ch) as [c|] eqn:Ec; [|discriminate].
+    destruct (modify r (map_add p) c) as [c'|] eqn:Em; [|discriminate]. inversion H; subst.
+    destruct l' as [|k' r']; [reflexivity|].
+    apply (is_prefix_app_cons (k :: r) (pkey p) k' r') in Hp. cbv beta iota in Hp. simpl.
+    inversion Hwf as [|? ? _ _ Hch _]; subst.
+    assert (Hc : wf n c) by (rewrite Forall_forall in Hch; apply Hch; eapply find_child_in; eauto).
+    assert (Hk' : pkey c' = k).
+    { apply modify_inv in Em; [|intros x x' Hx; destruct x; simpl in Hx; [discriminate|];
+                                  destruct (has_key _ _); [discriminate|]; inversion Hx; reflexivity].
+      destruct Em as [Hk _]. rewrite Hk. eapply find_child_key, Ec. }
+    destruct (String.eqb k k') eqn:Ek.
+    + apply String.eqb_eq in Ek. subst k'. destruct Hp as [Hp|Hp]; [discriminate|].
+      rewrite (find_child_replace_same k c c' ch Ec Hk'), Ec. eapply IH; eauto.
+    + rewrite find_child_replace_other; [reflexivity | exact Hk' | apply eqb_false_sym, Ek].
 Qed.
